@@ -140,6 +140,62 @@ func c19TokenAgreement(r *an.Run) {
 			}
 		}
 	}
+	// metaParser.errf reports at the current token (p.pos): what such a diagnostic quotes is the current token
+	// — never a field of a node that was parsed before (its token has been consumed; the message would
+	// point behind it). A complaint about an earlier token needs that token's own position.
+	if h := r.P.Func(parseP, "metaParser.errf"); h != nil {
+		atCurrent := false
+		for _, c := range an.Calls(h) {
+			if an.IsCallTo(c, "(*go/token.FileSet).Position") && strings.HasSuffix(an.Path(c.Common().Args[1]), ".pos") {
+				atCurrent = true
+			}
+		}
+		if r.Check(atCurrent, short(h)+"|reports-at-current-token", h.Pos(), "metaParser.errf positions its message at the current token (p.pos)") {
+			for _, f := range r.P.PkgFuncs(parseP) {
+				recv := recvValue(f)
+				for _, c := range an.Calls(f) {
+					if an.StaticCallee(c) != h || recv == nil {
+						continue
+					}
+					n++
+					a := c.Common().Args
+					good, what := true, ""
+					var elems []ssa.Value
+					if call, ok := c.(*ssa.Call); ok && len(a) > 0 {
+						if sl, ok := a[len(a)-1].(*ssa.Slice); ok {
+							if al, ok := sl.X.(*ssa.Alloc); ok && al.Referrers() != nil {
+								for _, u := range *al.Referrers() {
+									if ia, ok := u.(*ssa.IndexAddr); ok {
+										for _, w := range *ia.Referrers() {
+											if st, ok := w.(*ssa.Store); ok {
+												elems = append(elems, st.Val)
+											}
+										}
+									}
+								}
+							}
+						}
+						_ = call
+					}
+					for _, e := range elems {
+						v := an.Unwrap(e)
+						if mi, ok := v.(*ssa.MakeInterface); ok {
+							v = an.Unwrap(mi.X)
+						}
+						if _, isConst := v.(*ssa.Const); isConst {
+							continue
+						}
+						if p := an.Path(v); strings.HasPrefix(p, an.ParamName(recv)+".") {
+							continue
+						}
+						good, what = false, an.Describe(v)
+					}
+					msg, _ := an.ConstString(a[1])
+					r.Check(good, short(f)+"|quotes-the-current-token|"+firstWords(msg), c.Pos(), "a diagnostic positioned at the current token quotes only the current token (p.tok, p.text); this one quotes %s, which belongs to a token consumed earlier — the position points behind it", what)
+				}
+			}
+		}
+	}
 	// metaParser.next: pos, tok, text from one Scan
 	if f := fn(r, parseP, "metaParser.next"); f != nil {
 		scans := an.CallsTo(f, scannerScan)
@@ -229,54 +285,7 @@ func c19TokenAgreement(r *an.Run) {
 			}
 		}
 	}
-	// splitter.next: per-line assignment of startOffset, text, pos
-	if f := fn(r, sectRel, "programSplitter.next"); f != nil {
-		var loop *an.Loop
-		for _, l := range an.Loops(f) {
-			if loop == nil || len(l.Blocks) > len(loop.Blocks) {
-				loop = l // the per-line loop is the outermost one (skipping to the end of the line may be a loop inside it)
-			}
-		}
-		if r.Check(loop != nil, short(f)+"|line-loop", f.Pos(), "next() loops over lines") {
-			var so, tx, ps *ssa.Store
-			for b := range loop.Blocks {
-				if in := an.LoopOf(f, b); in == nil || in.Header != loop.Header {
-					continue
-				}
-				for _, in := range b.Instrs {
-					if st, ok := in.(*ssa.Store); ok {
-						switch an.Path(st.Addr) {
-						case "p.startOffset":
-							so = st
-						case "p.text":
-							tx = st
-						case "p.pos":
-							ps = st
-						}
-					}
-				}
-			}
-			if r.Check(so != nil && tx != nil && ps != nil, short(f)+"|per-line-state", f.Pos(), "startOffset, text and pos are (re)assigned inside the per-line loop: a header preceded by comment lines is still described by its own line") {
-				r.Check(an.Path(so.Val) == "p.offset" && an.InstrDominates(so, tx) && an.InstrDominates(so, ps) && (tx.Block() == ps.Block() || tx.Block().Dominates(ps.Block()) || ps.Block().Dominates(tx.Block())),
-					short(f)+"|assigned-together", so.Pos(), "the three are assigned together, startOffset first, from the offset at which the line begins")
-				// "the start offset": a load of p.startOffset, or the very value that was stored into it
-				isStart := func(v ssa.Value) bool { return an.Path(v) == "p.startOffset" || v == so.Val }
-				sl, isSl := tx.Val.(*ssa.Slice)
-				if !isSl {
-					// text may be set from a local that holds the slice
-					for _, in := range tx.Block().Instrs {
-						if x, ok := in.(*ssa.Slice); ok && ssa.Value(x) == tx.Val {
-							sl, isSl = x, true
-						}
-					}
-				}
-				r.Check(isSl && an.Path(sl.X) == "p.content" && isStart(sl.Low) && an.Path(sl.High) == "p.offset", short(f)+"|text-span", tx.Pos(), "text is content[startOffset:offset]")
-				pc, isCall := ps.Val.(*ssa.Call)
-				r.Check(isCall && an.IsCallTo(pc, "(*go/token.File).Pos") && isStart(pc.Call.Args[1]), short(f)+"|pos-of-line-start", ps.Pos(), "pos is the file position of startOffset")
-			}
-		}
-		n++
-	}
+	n += splitterKeepsTheLine(r)
 	r.Count("token agreement sites", n)
 	r.Min("token agreement sites", 7)
 }
@@ -605,4 +614,63 @@ func uncountedFrontCut(name ssa.Value, sl map[ssa.Value]bool) ssa.Value {
 		return nil
 	}
 	return visit(name, 0)
+}
+
+// splitterKeepsTheLine (part of C19-R2; also C01-R9, C03-R10, C13-R7): what the
+// section splitter hands on as the text of a line is content[startOffset:offset]
+// — the bytes of the line as written, neither trimmed nor normalised (blanks at
+// the end of a line are part of a raw string literal that continues on the next
+// line) — and its position is that of startOffset. Obligations go to the
+// current rule; the result is the number of sites inspected.
+func splitterKeepsTheLine(r *an.Run) int {
+	n := 0
+	// splitter.next: per-line assignment of startOffset, text, pos
+	if f := fn(r, sectRel, "programSplitter.next"); f != nil {
+		var loop *an.Loop
+		for _, l := range an.Loops(f) {
+			if loop == nil || len(l.Blocks) > len(loop.Blocks) {
+				loop = l // the per-line loop is the outermost one (skipping to the end of the line may be a loop inside it)
+			}
+		}
+		if r.Check(loop != nil, short(f)+"|line-loop", f.Pos(), "next() loops over lines") {
+			var so, tx, ps *ssa.Store
+			for b := range loop.Blocks {
+				if in := an.LoopOf(f, b); in == nil || in.Header != loop.Header {
+					continue
+				}
+				for _, in := range b.Instrs {
+					if st, ok := in.(*ssa.Store); ok {
+						switch an.Path(st.Addr) {
+						case "p.startOffset":
+							so = st
+						case "p.text":
+							tx = st
+						case "p.pos":
+							ps = st
+						}
+					}
+				}
+			}
+			if r.Check(so != nil && tx != nil && ps != nil, short(f)+"|per-line-state", f.Pos(), "startOffset, text and pos are (re)assigned inside the per-line loop: a header preceded by comment lines is still described by its own line") {
+				r.Check(an.Path(so.Val) == "p.offset" && an.InstrDominates(so, tx) && an.InstrDominates(so, ps) && (tx.Block() == ps.Block() || tx.Block().Dominates(ps.Block()) || ps.Block().Dominates(tx.Block())),
+					short(f)+"|assigned-together", so.Pos(), "the three are assigned together, startOffset first, from the offset at which the line begins")
+				// "the start offset": a load of p.startOffset, or the very value that was stored into it
+				isStart := func(v ssa.Value) bool { return an.Path(v) == "p.startOffset" || v == so.Val }
+				sl, isSl := tx.Val.(*ssa.Slice)
+				if !isSl {
+					// text may be set from a local that holds the slice
+					for _, in := range tx.Block().Instrs {
+						if x, ok := in.(*ssa.Slice); ok && ssa.Value(x) == tx.Val {
+							sl, isSl = x, true
+						}
+					}
+				}
+				r.Check(isSl && an.Path(sl.X) == "p.content" && isStart(sl.Low) && an.Path(sl.High) == "p.offset", short(f)+"|text-span", tx.Pos(), "text is content[startOffset:offset]")
+				pc, isCall := ps.Val.(*ssa.Call)
+				r.Check(isCall && an.IsCallTo(pc, "(*go/token.File).Pos") && isStart(pc.Call.Args[1]), short(f)+"|pos-of-line-start", ps.Pos(), "pos is the file position of startOffset")
+			}
+		}
+		n++
+	}
+	return n
 }
